@@ -3,6 +3,10 @@ pub mod c06;
 pub mod c08;
 pub mod c12;
 pub mod c13;
+pub mod c04;
+pub mod c05;
+pub mod c11;
+pub mod c14;
 pub mod evs;
 pub mod ost;
 
@@ -16,6 +20,10 @@ pub fn run_property<C: Codec>(id: &str, tier: Tier) -> i32 {
         "C08" => c08::run::<C>(tier),
         "C12" => c12::run::<C>(tier),
         "C13" => c13::run::<C>(tier),
+        "C04" => c04::run::<C>(tier),
+        "C05" => c05::run::<C>(tier),
+        "C11" => c11::run::<C>(tier),
+        "C14" => c14::run::<C>(tier),
         _ => {
             println!("INCONCLUSIVE unknown property {id}");
             2
@@ -38,6 +46,10 @@ pub fn replay<C: Codec>(text: &str) -> i32 {
         "C08" => c08::replay::<C>(text, &known),
         "C12" => c12::replay::<C>(text, &known),
         "C13" => c13::replay::<C>(text, &known),
+        "C04" => c04::replay::<C>(text, &known),
+        "C05" => c05::replay::<C>(text, &known),
+        "C11" => c11::replay::<C>(text, &known),
+        "C14" => c14::replay::<C>(text, &known),
         _ => None,
     };
     match r {
